@@ -406,6 +406,8 @@ func (x *Exec) typeAssert(fr *Frame, st *State, ins *ssa.TypeAssert, b *ssa.Basi
 				c.declare(name, []*Sort{ts}, c.Iface)
 				okc = c.App("is_"+name, c.Bool, v)
 				res = c.App("un"+name, ts, v)
+				// a value taken out of an interface satisfies its type invariant
+				x.assumeFact(st, c.Implies(okc, x.resultInv(at, res)))
 			}
 		}
 	}
